@@ -145,6 +145,10 @@ impl log::Log for GlobalLogger {
 
 static LOGGER: GlobalLogger = GlobalLogger::new();
 
+/// The parser and the AST builders are recursive-descent: long operator or `or` chains recurse
+/// once per operand. Give the compiler room instead of the default stack of a thread.
+const COMPILER_STACK_SIZE: usize = 256 * 1024 * 1024;
+
 fn main() -> Result<()> {
     let args = Args::parse();
 
@@ -169,9 +173,11 @@ fn main() -> Result<()> {
                 bail!("Error initializing logger: {err:?}")
             };
 
+            // `run` compiles on this thread before it executes: the thread is as large as the one
+            // `compile` uses, while the program itself gets the `--stack-size` it asked for
             let builder = thread::Builder::new()
                 .name("mscript-runtime".into())
-                .stack_size(stack_size);
+                .stack_size(stack_size.max(COMPILER_STACK_SIZE));
 
             let main_thread = builder.spawn(move || -> Result<(Result<()>, Option<Instant>)> {
                 Program::set_native_stack_budget(stack_size);
@@ -302,10 +308,6 @@ fn main() -> Result<()> {
             };
 
             let output_bin = matches!(output_format, CompilationTargets::Binary);
-
-            // The parser and the AST builders are recursive-descent: long operator or `or` chains
-            // recurse once per operand. Give the compiler room instead of the main thread's stack.
-            const COMPILER_STACK_SIZE: usize = 256 * 1024 * 1024;
 
             let compiler_thread = thread::Builder::new()
                 .name("mscript-compiler".into())
